@@ -52,6 +52,8 @@ def _same_string_probes(dest, title, order):
 
 # class-level parse options and formatter state: a table that interrupts a paragraph; a list item ended by a spaced
 # thematic break (the path that toggles the option); highlighted code
+# headings: one that ends a document with a closing sequence, one that begins a document without any text
+PROBES += ['text\n\n## closing ##\n\n# last ####\n', '#\n\n###\n\ntext\n']
 PROBES += ['| a [[b | c]] d | e]] |\n|---|---|\n| [[x | y | z]] |\n| p \\| q | `r | s` |\n', 'para\n| h | i |\n|---|---|\n| c | d |\n\nnext\n', '- item\n* * *\n\n- a\n- - -\nb\n| x |\n|---|\n']
 PROBES += _same_string_probes('/q?a=1&region=eu&copy', 'Q&A &copy 2020 \\* &amp', 1)
 PROBES += _same_string_probes('/p?b=2&sect=9&reg', 'R&D &reg 1999 \\_ &lt', -1)
